@@ -458,7 +458,7 @@ pub fn run_batch(prop: &dyn Property, prop_id: &str, opts: &CheckOpts) -> Batch 
         .budget_s
         .or_else(|| env_u64("VERIF_BUDGET_S"))
         .unwrap_or(match opts.tier {
-            Tier::Quick => 40,
+            Tier::Quick => 30,
             Tier::Thorough => 600,
         });
     let workers = opts.workers.max(1);
